@@ -746,6 +746,12 @@ theorem statsAll_w (h : List Tgt) : Pres (W h) statsAll := by
 theorem execStats_w (h : List Tgt) (p : JVal) : Pres (W h) (execStats p) := by
   unfold execStats; wk
 @[aesop safe apply (rule_sets := [Wk])]
+theorem execOptions_w (h : List Tgt) (p : JVal) : Pres (W h) (execOptions p) := by
+  unfold execOptions; wk
+@[aesop safe apply (rule_sets := [Wk])]
+theorem execGet_w (h : List Tgt) (p : JVal) : Pres (W h) (execGet p) := by
+  unfold execGet; wk
+@[aesop safe apply (rule_sets := [Wk])]
 theorem execReadOnly_w (h : List Tgt) (c : String) (p : JVal) : Pres (W h) (execReadOnly c p) := by
   have he := exec_wake_default
   unfold execReadOnly; wk
